@@ -328,12 +328,18 @@ class ValueAxis(Saveable):
         """
         ret = True
         
-        Nst = round(self.step/axis.step)
-        ret = ret and (Nst*axis.step == self.step)
-        ret = ret and ((self.start in axis.data) and (self.start < axis.max))
-        ret = ret and ((self.max in axis.data))
+        # values are compared up to rounding errors (relative to the step):
+        # the points of an axis are generated by numpy.linspace, and e.g. 
+        # 3*0.7 is not bit-identical to the corresponding point
+        tol = 1.0e-9*abs(axis.step)
         
-        return ret
+        Nst = round(self.step/axis.step)
+        ret = ret and (abs(Nst*axis.step - self.step) <= tol)
+        ret = ret and ((numpy.min(numpy.abs(axis.data - self.start)) <= tol) 
+                       and (self.start < axis.max))
+        ret = ret and (numpy.min(numpy.abs(axis.data - self.max)) <= tol)
+        
+        return bool(ret)
     
     
     
